@@ -1,7 +1,7 @@
 """C07 — the filter is total: arbitrary input never crashes or hangs it."""
 import t2t, gen, impl, corr
 
-OBLIGATIONS = ['Yalafi.C07_scan_total', 'Yalafi.C07_removeLines_total', 'Yalafi.C07_ml_total']
+OBLIGATIONS = ['Yalafi.C07_scan_total', 'Yalafi.C07_removeLines_total', 'Yalafi.C07_ml_total', 'Yalafi.C07_tex2txt_no_crash', 'Yalafi.C07_tex2txt_no_crash_current']
 
 DOCUMENTED_FATAL = ("no environment for '$$'", 'is not an EquEnv')
 
